@@ -233,6 +233,9 @@ pub fn render(s: &Spec) -> Rendered17 {
                 }
                 lines.push(format!("{}    pass", ind));
             }
+            // variant 1: the walrus sits in the header of an `if`, the use inside its body, and the
+            // name is bound AGAIN after the use (still inside the body)
+            5 if st.variant % 4 == 1 => lines.push(format!("{}if ({} := make()):", ind, name)),
             5 => lines.push(format!("{}check(({} := make()))", ind, name)),
             6 => lines.push(format!("{}import {}", ind, name)),
             8 => lines.push(format!("{}first, {} = pair()", ind, name)),
@@ -290,10 +293,14 @@ pub fn render(s: &Spec) -> Rendered17 {
                 }
             }
         };
-        let extra_ind = if b == 12 { "" } else { "" };
+        let in_if_body = b == 5 && st.variant % 4 == 1;
+        let extra_ind = if in_if_body { "    " } else { "" };
         let full_pre = format!("{}{}{}", ind, extra_ind, pre);
         let start = full_pre.len();
         lines.push(format!("{}{}{}", full_pre, name, post));
+        if in_if_body {
+            lines.push(format!("{}    {} = other()", ind, name));
+        }
         // binding after the use
         if b == 2 {
             lines.push(format!("{}{} = make()", ind, name));
